@@ -106,6 +106,19 @@ def check(tier: str, seed: int) -> int:
     fouts = pmap("harness.impl", "free_threads_case", [{"texts": texts[i::4][:400], "threads": 8} for i in range(4)], chunk=1)
     # (i) purity
     pouts = pmap("harness.impl", "purity_case", texts, chunk=300)
+    # (i-b) purity of documents BUILT through the API from the values of MC_Values (lists, dicts, lists holding sets)
+    from . import values as _values
+    seen_v, bcases = set(), []
+    for m in _values.model_values("quick")["printed"]:
+        if m["v"]["t"] not in ("list", "dict"):
+            continue
+        k = json.dumps(m["v"], sort_keys=True)
+        if k in seen_v:
+            continue
+        seen_v.add(k)
+        for shape in ("item_assign", "with_body", "nested"):
+            bcases.append({"pv": _values.to_py(m["v"]), "shape": shape})
+    bouts = pmap("harness.impl", "built_purity_case", bcases, chunk=200)
     # (iv) order independence in one process
     ocases = []
     for k in range(8 if tier == "quick" else 40):
@@ -144,6 +157,10 @@ def check(tier: str, seed: int) -> int:
             cid += 1
             meta.append(("purity", t, o))
             lines.append(json.dumps({"id": cid, "events": [], "same_as_serial": o["same_text"] and o["same_snap"]}))
+        for c, o in zip(bcases, bouts):
+            cid += 1
+            meta.append(("built", c, o))
+            lines.append(json.dumps({"id": cid, "events": [], "same_as_serial": o["same_text"] and o["same_snap"]}))
         for c, o in zip(ocases, oouts):
             cid += 1
             meta.append(("order", c, o))
@@ -171,6 +188,8 @@ def check(tier: str, seed: int) -> int:
             raise tlc.TLCFailure(f"no verdict for case {i}")
         sig = kind + ":" + (json.dumps(c)[:400] if kind in ("schedule",) else str(i))
         run.case(sig if kind != "purity" else "purity:" + c, nontrivial=True)
+        if kind == "built" and o["res"] != "ok":
+            continue        # a value the API refuses in that position: nothing was built
         if bad:
             cl = sorted(bad)[0]
             if kind == "schedule":
@@ -181,6 +200,9 @@ def check(tier: str, seed: int) -> int:
             elif kind == "purity":
                 key, det = f"C15_Pure|text={o['same_text']}|snapshot={o['same_snap']}", {"input": c, "observed": o}
                 cl = "C15_Pure"
+            elif kind == "built":
+                key, det = f"C15_Pure|built:{c['shape']}|text={o['same_text']}|snapshot={o['same_snap']}", {"value": c["pv"], "shape": c["shape"], "observed": o}
+                cl = "C15_Pure"
             elif kind == "order":
                 key, det = "C15_OrderIndependent", {"first_difference": o.get("detail")}
                 cl = "C15_OrderIndependent"
@@ -189,7 +211,7 @@ def check(tier: str, seed: int) -> int:
                 cl = "C15_ProcessConfigIndependent"
             run.violation(key, cl, det)
     run.coverage.update({"schedules_replayed": len(scases), "hook_events_in_schedules": nev,
-                         "free_thread_events": sum(o["n_events"] for o in fouts), "purity_cases": len(texts),
+                         "free_thread_events": sum(o["n_events"] for o in fouts), "purity_cases": len(texts), "built_document_purity_cases": len(bcases),
                          "order_cases": len(ocases), "process_configurations": digests})
     run.sample({"schedule": scases[0]["sched"], "jobs": scases[0]["jobs"], "threaded": souts[0]["threaded"]})
     run.sample({"free_threads": {"events": fouts[0]["n_events"], "same_as_serial": fouts[0]["same"]}})
